@@ -13,6 +13,10 @@
 (*                           data not for iteration  -> ValueError          *)
 (*   incompatible render args                        -> IncompatibleRenderArgsError *)
 (*   iter(renderable) on a non-animated renderable   -> NonAnimatedRenderableError  *)
+(*   a render size / padded size that does NOT fit the terminal is accepted  *)
+(*   all the same: iterators never validate sizes against the terminal (only *)
+(*   draw() does) - the `fits` dimension has no effect on the verdict, and   *)
+(*   the first frame then has the oversized render size                      *)
 (*   otherwise: loop = loops (1 for INDEFINITE), cached = cache if boolean   *)
 (*   else frame_count <= cache (never for INDEFINITE)                        *)
 (***************************************************************************)
@@ -21,13 +25,16 @@ EXTENDS Naturals, Integers, TLC, Json
 Cases ==
   [via : {"ctor", "from_data", "iter"}, frames : {0, 1, 3},   \* 0 = INDEFINITE, 1 = not animated
    loops : {-1, 0, 2}, cachekind : {"bool", "int"}, cacheb : BOOLEAN, cachen : {-1, 0, 2, 3},
-   data : {"ok", "other-class", "finalized", "not-iteration"}, args : {"none", "own", "incompatible"}]
+   data : {"ok", "other-class", "finalized", "not-iteration"}, args : {"none", "own", "incompatible"},
+   fits : {"yes", "render-too-big", "padding-too-big"}]
 
 Relevant(c) ==
   /\ (c.via # "from_data" => c.data = "ok")
   /\ (c.via = "iter" => c.loops = 2 /\ c.cachekind = "bool" /\ ~c.cacheb /\ c.args = "none")
   /\ (c.cachekind = "bool" => c.cachen = 2)
   /\ (c.cachekind = "int" => c.cacheb)
+  /\ (c.fits # "yes" => c.cachekind = "bool" /\ c.data = "ok" /\ c.args # "incompatible" /\ c.loops # 0)
+  /\ (c.via = "iter" => c.fits # "padding-too-big")
 
 Verdict(c) ==
   IF c.via = "iter" THEN (IF c.frames = 1 THEN "NonAnimatedRenderableError" ELSE "ok")
